@@ -635,11 +635,12 @@ class KeychainSqlite3(Keychain):
         key_locator_name = sign_args.get('key_locator', None)
         if not key_locator_name:
             key_locator_name = cert_name
-        key_locator_bytes = Name.to_bytes(key_locator_name)
-        signer = self._signer_cache.get(key_locator_bytes, None)
+        # A signer belongs to a (key, key locator) pair: two keys may be used with the same explicit locator
+        cache_key = (Name.to_bytes(key_name), Name.to_bytes(key_locator_name))
+        signer = self._signer_cache.get(cache_key, None)
         if not signer:
             signer = self.tpm.get_signer(key_name, key_locator_name)
-            self._signer_cache[key_locator_bytes] = signer
+            self._signer_cache[cache_key] = signer
         return signer
 
     def del_key(self, name: NonStrictName):
